@@ -185,6 +185,16 @@ func runC14(r *Report, rng *rand.Rand, thorough bool) {
 									"opts": map[string]any{"middlewares": n, "short_circuit": short, "strict_middlewares": sn, "strict_short_circuit": sshort, "strict_with_options": wopts, "warmup": warm},
 									"req":  map[string]any{"method": rq.method, "target": rq.target, "header": rq.header, "body": rq.body}})
 								metas[id] = meta{v, rq, n, short, sn, sshort, warm}
+								if n > 0 && short == -1 && sshort == -1 && (v.fw == "gin" || v.fw == "chi" || v.fw == "gorilla" || v.fw == "stdhttp") && (thorough || sn == 0) {
+									// a middleware that sends the response header itself and passes on: the same chain is expected
+									k := 1 + rng.Intn(n)
+									id2 := id + fmt.Sprintf("/writes%d", k)
+									scenarios = append(scenarios, map[string]any{"id": id2, "pkg": v.name,
+										"opts": map[string]any{"middlewares": n, "short_circuit": short, "strict_middlewares": sn, "strict_short_circuit": sshort, "strict_with_options": wopts, "warmup": warm, "mw_writes": k},
+										"req":  map[string]any{"method": rq.method, "target": rq.target, "header": rq.header, "body": rq.body}})
+									metas[id2] = meta{v, rq, n, short, sn, sshort, warm}
+									r.Dist["middleware_that_writes_and_passes_on"]++
+								}
 								if wopts {
 									r.Dist["constructor=NewStrictHandlerWithOptions"]++
 								}
@@ -274,5 +284,5 @@ func runC14(r *Report, rng *rand.Rand, thorough bool) {
 	}
 	cases.WriteTo(r)
 	r.Exhaustive = thorough
-	r.Rule = "generated servers for 7 frameworks x {plain, strict} (+ first-to-last flag variants for chi, gorilla, std-http) compiled and served in process; every operation shape (no parameters, path / query / header parameters, body, security) x 0-3 per-operation middlewares x every short-circuit position x 0-2 strict middlewares x every strict short-circuit position x both strict constructors of the net/http flavours (NewStrictHandler, NewStrictHandlerWithOptions) x the observed request being the first, second or third served by the mounted handler (thorough: the whole product; quick: a third of the strict x per-operation combinations); trace of recording middlewares and stub handler compared with the model in Coq and with the documented order; non-trivial = at least one middleware installed"
+	r.Rule = "generated servers for 7 frameworks x {plain, strict} (+ first-to-last flag variants for chi, gorilla, std-http) compiled and served in process; every operation shape (no parameters, path / query / header parameters, body, security) x 0-3 per-operation middlewares x every short-circuit position x 0-2 strict middlewares x every strict short-circuit position x both strict constructors of the net/http flavours (NewStrictHandler, NewStrictHandlerWithOptions) x (gin and the net/http flavours) one of the middlewares sending the response header itself before passing on x the observed request being the first, second or third served by the mounted handler (thorough: the whole product; quick: a third of the strict x per-operation combinations); trace of recording middlewares and stub handler compared with the model in Coq and with the documented order; non-trivial = at least one middleware installed"
 }
